@@ -2225,12 +2225,12 @@ sexp sexp_make_opcode (sexp ctx, sexp self, sexp name, sexp op_class, sexp code,
 sexp sexp_make_foreign (sexp ctx, const char *name, int num_args,
                         int flags, const char *fname, sexp_proc1 f, sexp data) {
   sexp_gc_var1(res);
-  sexp_gc_preserve1(ctx, res);
 #if ! SEXP_USE_EXTENDED_FCALL
   if (num_args > 4)
     return sexp_user_exception(ctx, NULL, "make-foreign: exceeded foreign arg limit",
                                sexp_make_fixnum(num_args));
 #endif
+  sexp_gc_preserve1(ctx, res);
   res = sexp_alloc_type(ctx, opcode, SEXP_OPCODE);
   sexp_opcode_class(res) = SEXP_OPC_FOREIGN;
 #if SEXP_USE_EXTENDED_FCALL
